@@ -4,7 +4,7 @@
  * valid aggregator).  An exit that forgets the final size check fails this obligation. */
 void harness(void) {
   HAVOC_BUFS;
-  sv_t user_input; user_input.n = nondet_size(); MAKE_SV(user_input);
+  ND_SV(user_input);
   struct url_aggregator base; base.base.is_valid = nondet_bool(); base.base.has_opaque_path = nondet_bool();
   __CPROVER_assume(AGG_SHAPE(&base));
   __CPROVER_assume(!base.base.is_valid || base.buffer.n <= g_max_input_length);   /* a base handed out by the library obeys the limit */
